@@ -12,6 +12,7 @@ import (
 	"github.com/mithrandie/csvq/lib/option"
 	"github.com/mithrandie/csvq/lib/parser"
 	"github.com/mithrandie/csvq/lib/value"
+	"github.com/mithrandie/csvq/lib/verifhook"
 
 	"github.com/mithrandie/ternary"
 )
@@ -115,6 +116,7 @@ func evaluateSequentialRoutine(ctx context.Context, scope *ReferenceScope, view 
 	}()
 
 	start, end := gm.RecordRange(thIdx)
+	verifhook.Worker("seq", thIdx, gm.Number)
 	seqScope := scope.CreateScopeForSequentialEvaluation(
 		&View{
 			Header:    view.Header,
@@ -127,6 +129,9 @@ func evaluateSequentialRoutine(ctx context.Context, scope *ReferenceScope, view 
 	for seqScope.NextRecord() {
 		if gm.HasError() {
 			break
+		}
+		if i&15 == 0 {
+			verifhook.Worker("seq", thIdx, 0)
 		}
 		if i&15 == 0 && ctx.Err() != nil {
 			break
